@@ -50,6 +50,7 @@ SPEC = {
     'jax.vmap\'s unbatchedness check of results declared None enters by its verdict (computed by the harness as data dependence on a mapped input)',
     'nnx.scan bodies do not write Variables routed to None (broadcast): the implementation silently drops such writes (known finding F33 scan-broadcast-write-dropped); the model follows the code and the reference scanSpecN of scan_eq_loop_nnx leaves broadcast Variables at their original values',
     'gradient *values* are JAX\'s (A-AD): they are compared real-vs-jax.grad-of-the-functional-form only; the model decides which leaves are differentiated, the value, the aux and the side effects',
+    'transform options are a record: the two public spellings T(f, **opts) and T(**opts)(f) denote the same option record (in_axes, out_axes, axis_size / length, reverse, unroll / argnums, has_aux), so the model takes the record; every vmap / scan / grad / value_and_grad case is constructed in one of the two spellings at random (distribution construction_form), the oracle (Python loop in processing order) is unchanged',
     'in_axes / out_axes prefix trees of depth one (one entry for all, or one per argument / result); pmap, shard_map, custom_vjp do not run in this sandbox',
   ],
   'model_partial': [
@@ -832,9 +833,10 @@ def check_vmap(ctx, drv, cases):
     single = isinstance(case['out_axes'].get('u'), dict) and len(case['prog']['outs']) == 1
     f = make_fn(case['prog'], single=single)
     sugar = ctx.rng.random() < 0.5
+    form = pick_form(ctx, case, 'vmap')
 
-    def transform(objs, case=case, f=f, sugar=sugar, single=single):
-      r = nnx.vmap(f, in_axes=axes_python(case['in_axes'], sugar), out_axes=axes_python(case['out_axes'], sugar), axis_size=case['axis_size'])(*objs)
+    def transform(objs, case=case, f=f, sugar=sugar, single=single, form=form):
+      r = construct(nnx.vmap, f, form, in_axes=axes_python(case['in_axes'], sugar), out_axes=axes_python(case['out_axes'], sugar), axis_size=case['axis_size'])(*objs)
       return (r,) if single else r
 
     res, store, _ = run_real(case, transform)
@@ -1226,8 +1228,12 @@ def check_scan(ctx, drv, cases):
       except Exception as e:
         ref = {'rows': rows_out, 'ref_failed': exc_class(e)}
     sugar = ctx.rng.random() < 0.5
+    form = pick_form(ctx, case, 'scan')
+    if 'unroll' not in case:
+      case['unroll'] = ctx.rng.choice([1, 1, 2])  # semantically irrelevant; must travel with the other options
+    ctx.count('construction_form', f"scan:reverse={bool(case['reverse'])}:{form}")
 
-    def transform(objs, case=case, sugar=sugar):
+    def transform(objs, case=case, sugar=sugar, form=form):
       f = make_scan_fn(case['prog'], case['cpos'], case['single'])
       in_ax = axes_python(case['in_axes'], sugar)
       call_args = list(objs)
@@ -1241,7 +1247,7 @@ def check_scan(ctx, drv, cases):
         in_ax = tuple(in_ax[:lo]) + (None,) + tuple(in_ax[hi:])
         f = _group_wrapper(f, lo, hi - lo, tkind)
 
-      r = nnx.scan(f, in_axes=in_ax, out_axes=axes_python(case['out_axes'], sugar), length=case['length'], reverse=case['reverse'])(*call_args)
+      r = construct(nnx.scan, f, form, in_axes=in_ax, out_axes=axes_python(case['out_axes'], sugar), length=case['length'], reverse=case['reverse'], unroll=case['unroll'])(*call_args)
       r = (r,) if case['single'] else tuple(r)
       cp = case['cpos']
       cref = (objs[cp], cp) if cp is not None and isinstance(objs[cp], Mod) else None
@@ -1465,6 +1471,25 @@ def ref_grad(case):
           'exact': is_integral(loss) and all(is_integral(x) for x in list(gv.values()) + list(ga.values()))}
 
 
+FORMS = ('direct', 'decorator')
+
+
+def pick_form(ctx, case, name):
+  """Both public spellings denote the same option record: T(f, **opts) and T(**opts)(f)
+  (the `f is Missing` branch re-dispatches through functools.partial).  Chosen once per case, stored in the case
+  so a replay rebuilds the same spelling."""
+  if 'form' not in case:
+    case['form'] = ctx.rng.choice(FORMS)
+  ctx.count('construction_form', f"{name}:{case['form']}")
+  return case['form']
+
+
+def construct(T, f, form, **opts):
+  if form == 'decorator':
+    return T(**opts)(f)
+  return T(f, **opts)
+
+
 def check_grad(ctx, drv, cases):
   reqs, recs = [], []
   for case in cases:
@@ -1476,10 +1501,11 @@ def check_grad(ctx, drv, cases):
       except Exception as e:
         ref = {'rows': [], 'ref_failed': exc_class(e) + ':' + str(e)[:200]}
     f = make_grad_fn(case['prog'], case['has_aux'])
+    form = pick_form(ctx, case, 'value_and_grad' if case['value'] else 'grad')
 
-    def transform(objs, case=case, f=f):
+    def transform(objs, case=case, f=f, form=form):
       tr = nnx.value_and_grad if case['value'] else nnx.grad
-      r = tr(f, argnums=argnums_python(case), has_aux=case['has_aux'])(*objs)
+      r = construct(tr, f, form, argnums=argnums_python(case), has_aux=case['has_aux'])(*objs)
       if case['value']:
         (lo, grads) = r
         loss, aux = (lo if case['has_aux'] else (lo, ()))
@@ -1643,11 +1669,12 @@ def check_scan_setup(ctx, drv, rng, thorough):
   if not thorough:
     pairs = rng.sample(pairs, 2500)
   outs = drv.run([('scan_setup', [i, o]) for i, o in pairs])
-  for (i, o), m in zip(pairs, outs):
-    case = {'t': 'scan_setup', 'in_axes': i, 'out_axes': o}
+  for k_, ((i, o), m) in enumerate(zip(pairs, outs)):
+    case = {'t': 'scan_setup', 'in_axes': i, 'out_axes': o, 'form': FORMS[k_ % 2]}
     ctx.case(case, nontrivial=True)
+    ctx.count('construction_form', f"scan_setup:{case['form']}")
     try:
-      nnx.scan(lambda *a: None, in_axes=axes_python(i), out_axes=axes_python(o))
+      construct(nnx.scan, lambda *a: None, case['form'], in_axes=axes_python(i), out_axes=axes_python(o))
       got = 'ok'
     except Exception as e:
       got = exc_class(e)
